@@ -31,6 +31,15 @@ def pmap(ctx, fn, items, procs=None, chunk=1):
     _FN = fn  # inherited by fork
     mp = multiprocessing.get_context('fork')
     seed_ctx = ctx.child()
-    with ProcessPoolExecutor(max_workers=procs, mp_context=mp) as ex:
-        for res in ex.map(_work, [(seed_ctx, it) for it in items], chunksize=chunk):
-            ctx.merge(res)
+    ex = ProcessPoolExecutor(max_workers=procs, mp_context=mp)
+    try:
+        futs = [ex.submit(_work, (seed_ctx, it)) for it in items]
+        for f in futs:                      # merged in item order: the outcome does not depend on timing
+            if f.cancelled():
+                continue
+            ctx.merge(f.result())
+            if ctx.violations:              # one confirmed counterexample is enough: do not start further items
+                for g in futs:
+                    g.cancel()
+    finally:
+        ex.shutdown(wait=True, cancel_futures=True)
